@@ -624,11 +624,11 @@ func (u *unit) solve() {
 				u.set(p).add(loc{u.paramRoot(fn, i, 0), -1})
 			}
 		}
-		if fn == u.top {
-			for j, fv := range fn.FreeVars { // bound-method wrappers
-				if u.a.HasRefs(fv.Type()) {
-					u.set(fv).add(loc{u.paramRoot(fn, len(fn.Params)+j, 0), -1})
-				}
+		// free variables: parameters after the declared ones (bound-method wrappers,
+		// and closures invoked from elsewhere, e.g. through a registry)
+		for j, fv := range fn.FreeVars {
+			if u.a.HasRefs(fv.Type()) {
+				u.set(fv).add(loc{u.paramRoot(fn, len(fn.Params)+j, 0), -1})
 			}
 		}
 	}
